@@ -1754,7 +1754,10 @@ func (c *BytecodeCompiler) compileDeferExpressionNode(node *ast.DeferExpressionN
 		loc,
 		nil,
 		func() {
-			closureCompiler.compileNode(node.Expression, true)
+			if closureCompiler.compileNode(node.Expression, true) != expressionCompiled {
+				// the closure returns the value on top of its stack: give it one
+				closureCompiler.emit(loc.EndPos.Line, bytecode.NIL)
+			}
 		},
 	)
 
